@@ -220,6 +220,14 @@ pub fn cstr(s: &str) -> CString {
 }
 
 pub fn free_port() -> u16 {
-    let l = std::net::TcpListener::bind("127.0.0.1:0").expect("bind");
-    l.local_addr().unwrap().port()
+    // the ephemeral range can be exhausted for a moment when many real-socket checks run at once
+    for _ in 0..250 {
+        if let Ok(l) = std::net::TcpListener::bind("127.0.0.1:0") {
+            if let Ok(a) = l.local_addr() {
+                return a.port();
+            }
+        }
+        std::thread::sleep(std::time::Duration::from_millis(20));
+    }
+    panic!("INFRA: no free TCP port on 127.0.0.1 for 5 s");
 }
